@@ -45,6 +45,31 @@ def check_lexeme(lexer, left, lexeme, right, expect):
     return ('boundary', 'no token at the left edge')
 
 
+# keyword phrases directly left of a quoted region. The dedicated rule AT TIME ZONE '<text>' takes the literal into
+# its own Keyword.TZCast token (an "earlier dedicated lexical rule"): there the region must lie, whole, at the end of
+# that one token; after every other phrase it is a token of its own
+PHRASE_LEFTS = ['at time zone ', 'AT TIME ZONE ', 'x at  time\nzone\t', 'with time zone ', 'timestamp with time zone ',
+                'time zone ', 'zone ', 'at time ', 'interval ', 'date ', 'like ', 'not like ', 'is ', 'escape ', 'e', 'n']
+TZCAST = __import__('re').compile(r'(?i)\bat\s+time\s+zone\s+$')
+
+
+def check_phrase(lexer, left, lexeme, right, expect):
+    text = left + lexeme + right
+    pos = 0
+    lo, hi = len(left), len(left) + len(lexeme)
+    for tt, val in lexer.tokenize(text):
+        end = pos + len(val)
+        if end > lo:
+            if pos == lo and val == lexeme and oracles.tname(tt) == expect:
+                return None
+            if TZCAST.search(left) and oracles.tname(tt) == 'Keyword.TZCast' and pos < lo and end == hi \
+                    and TZCAST.search(text[pos:lo]):
+                return None
+            return (oracles.tname(tt), val)
+        pos = end
+    return ('boundary', 'no token covers the region')
+
+
 def _ctx_name(c):
     return {'': 'edge', ' ': 'blank', '\t': 'tab', '\n': 'lf', '\r\n': 'crlf'}.get(c, c)
 
@@ -118,7 +143,13 @@ def run(tier, seed):
         lefts3 = lefts
 
     def work(chunk):
-        from sqlparse import lexer
+        from sqlparse import lexer, tokens as T
+        # a caller's own, differently configured Lexer objects exist next to the default one: the tables the
+        # default instance classifies by are its own
+        own = [lexer.Lexer(), lexer.Lexer()]
+        own[0].clear()
+        own[1].default_initialization()
+        own[1].add_keywords({'FOO': T.Keyword, 'SELECT': T.Name, 'ZZ_NO_WORD': T.Keyword.DML})
         acc = core.Acc(bits=26 if tier == 'thorough' else 24)
         for kind, a, b in chunk:
             if kind == 'region':
@@ -145,6 +176,21 @@ def run(tier, seed):
                         expect = tname + '.Hint'
                     ctx_l = rlefts if len(body) < 3 else lefts3
                     ctx_r = rrights if len(body) < 3 else lefts3
+                    if name in ('single-quoted', 'double-quoted') and len(body) <= 2:
+                        for l in PHRASE_LEFTS:
+                            if len(l) == 1 and name == 'double-quoted':
+                                continue
+                            for r in ('', ' ', ',', ';', ')'):
+                                lexeme = op + bt + cl
+                                bad = check_phrase(lexer, l, lexeme, r, expect)
+                                acc.case(l + lexeme + r, len(body) > 0, outcome=name + '-after-phrase',
+                                         sample={'left': l, 'lexeme': lexeme, 'right': r, 'expect': expect})
+                                if bad:
+                                    acc.violation({'kind': 'region-not-one-token',
+                                                   'sig': f'{name}|left=phrase:{" ".join(l.lower().split())}|got={bad[0]}',
+                                                   'text': l + lexeme + r, 'left': l, 'lexeme': lexeme, 'right': r,
+                                                   'expect': expect, 'phrase': True,
+                                                   'detail': f'token over the region: {bad!r}', 'size': len(l + lexeme + r)})
                     closers = [cl] if cl != '\n' else ['\n', '\r\n', '\r', '']
                     for c in closers:
                         lexeme = op + bt + c
@@ -222,5 +268,6 @@ def run(tier, seed):
 
 def replay(case):
     from sqlparse import lexer
-    bad = check_lexeme(lexer, case['left'], case['lexeme'], case['right'], case['expect'])
+    fn = check_phrase if case.get('phrase') else check_lexeme
+    bad = fn(lexer, case['left'], case['lexeme'], case['right'], case['expect'])
     return {'text': case['text'], 'violation': bool(bad), 'observed': bad}
